@@ -36,6 +36,8 @@ def tlc_small(r, total):
 
 
 def sig_of(r):
+    if r.get("ev") == "win":
+        return "window:roll-sum-update-differs-from-FeeMarket"
     tags, _, _ = _c13rows.classify(r)
     d = "up" if "up" in tags else "down" if "down" in tags else "equal"
     if "intermediate-quotient-beyond-64-bits-result-fits" in tags:
@@ -97,7 +99,7 @@ def run(ctx):
     if rc != 0:
         raise vlib.Infra("fee market recorder failed:\n" + out[-3000:])
     rows = vlib.read_ndjson(os.path.join(ctx.work, "out", "rows.ndjson"))
-    if ctx.only is None and len(rows) < 5 * (calls + ctx.pick(9, 17)):
+    if ctx.only is None and len(rows) < 5 * (calls + ctx.pick(9, 17)) + ctx.pick(55, 180):
         raise vlib.Infra("recorder wrote %d rows for %d calls" % (len(rows), calls))
     if not rows:
         raise vlib.Infra("recorder wrote no rows")
@@ -105,7 +107,17 @@ def run(ctx):
     distinct = set()
     tagcount = {}
     small_rows = []
+    win_rows = [r for r in rows if r.get("ev") == "win"]
+    for r in win_rows:
+        ws, rolled = [int(a) for a in r["w"]], [int(a) for a in r["rolled"]]
+        tagcount["window-row"] = tagcount.get("window-row", 0) + 1
+        if _c13rows.overflow_before_last(ws) or _c13rows.overflow_before_last(rolled):
+            tagcount["window-row-sum-overflows-before-the-last-slot"] = \
+                tagcount.get("window-row-sum-overflows-before-the-last-slot", 0) + 1
+            distinct.add(("win",) + tuple(r["w"]) + (r["roll"], r["slot"], r["units"]))
     for r in rows:
+        if r.get("ev") == "win":
+            continue
         tags, since, total = _c13rows.classify(r)
         for t in tags:
             tagcount[t] = tagcount.get(t, 0) + 1
@@ -122,7 +134,8 @@ def run(ctx):
     ctx.sample({"kind": "recorded-row", "row": rows[len(rows) // 2]})
     if ctx.only is None:
         for t in ("up", "down", "product-beyond-64-bits", "since>=window", "total-saturated", "since-enormous",
-                  "elapsed-factor-beyond-64-bits", "intermediate-quotient-beyond-64-bits-result-fits"):
+                  "elapsed-factor-beyond-64-bits", "intermediate-quotient-beyond-64-bits-result-fits",
+                  "window-sum-overflows-before-the-last-slot", "window-row-sum-overflows-before-the-last-slot"):
             if not tagcount.get(t):
                 raise vlib.Infra("vacuity: no recorded row of class " + t)
         if not small_rows:
@@ -160,7 +173,7 @@ def run(ctx):
             validated += okrows
             for r in bad:
                 rep = vlib.save_replay(ctx, {"property": ctx.prop, "seed": ctx.seed, "tier": ctx.tier, "only": r["call"],
-                                            "row": r, "classes": sorted(_c13rows.classify(r)[0]),
+                                            "row": r, "classes": sorted(_c13rows.classify(r)[0]) if r.get("ev") != "win" else ["window-row"],
                                             "conjunct": _c13rows.row_conj(r)},
                                        name="%s-seed%d-call%d-d%d.json" % (ctx.tier, ctx.seed, r["call"], r["d"]))
                 fails.append({"event": {"ev": "row", "call": r["call"], "d": r["d"]}, "row": r, "invariant": None,
@@ -170,6 +183,10 @@ def run(ctx):
 
     def describe(f):
         r = f.get("row", {})
+        if r.get("ev") == "win":
+            return ("window row %s: w=%s roll=%s -> rolled=%s Sum(w)=%s Sum(rolled)=%s; Update(slot %s, %s) -> Sum=%s" % (
+                r.get("call"), ",".join(r["w"]), r["roll"], ",".join(r["rolled"]), r["sum_w"], r["sum_rolled"], r["slot"],
+                r["units"], r["sum_updated"]))
         return ("call %s dim %s: prev=%s window=%s last=%s target=%s denom=%s min=%s lastSec=%s nowMs=%s -> next=%s "
                 "(classes %s)" % (r.get("call"), r.get("d"), r.get("prev"), ",".join(r.get("w", [])), r.get("last"),
                                   r.get("target"), r.get("denom"), r.get("min"), r.get("lastSec"), r.get("nowMs"),
